@@ -861,7 +861,7 @@ def call_builtin(ip, st, f, args, kwargs):
 
 def _native_ok(f, args):
     owner = getattr(f, "__self__", None)
-    if isinstance(owner, (str, bytes, int, tuple, frozenset, float)):
+    if isinstance(owner, (str, bytes, int, tuple, frozenset, float, set)):
         return True
     if isinstance(f, type) and (issubclass(f, (str, bytes, frozenset, enum.Enum)) or f in (dict, set)):
         return True
